@@ -137,40 +137,44 @@ pub fn check(id: &str, tier: Tier) -> i32 {
   if id != "C13" {
     let menu2: Vec<P> = if id == "C07" { vec![P::B16, P::B24, P::U64, P::AB8, P::B16D, P::U64D, P::Dp, P::B16B16, P::DpB16, P::Disc, P::B8U64, P::DiscB16] } else { vec![P::B16, P::B24, P::U64, P::AB8, P::B16D, P::U64D, P::Dp, P::B16B16, P::DpB16, P::B8U64, P::B24D] };
     let menu3: Vec<P> = if id == "C07" { vec![P::B16, P::B24, P::U64, P::B16D, P::Dp, P::Disc] } else { vec![P::B16, P::B24, P::U64, P::AB8, P::B16D, P::Dp] };
-    let (b2, b3) = if thorough { (5, 3) } else { (3, 2) };
-    let fls: Vec<Fl> = if id == "C07" { vec![Fl::Optimistic, Fl::Pessimistic] } else { vec![Fl::Optimistic, Fl::Pessimistic, Fl::None] };
-    let shapes2: Vec<u8> = if thorough { vec![3, 1, 0, 7, 5, 11, 19, 27] } else { vec![3, 1, 0, 7, 11] };
-    let shapes3: Vec<u8> = if thorough { vec![3, 1, 7, 11, 19] } else { vec![3, 1, 11] };
-    let layouts: Vec<(bool, u32, u32)> = if thorough { vec![(true, 256, 8), (false, 225, 8), (true, 256, 0), (true, 256, 20)] } else { vec![(true, 256, 8), (false, 225, 8)] };
-    for fl in &fls {
-      for (li, (unify, cap, min_seg)) in layouts.iter().enumerate() {
-        for shape in &shapes2 {
-          if *fl == Fl::None && *shape != 3 && *shape != 7 {
-            continue;
-          }
-          if li > 0 && !thorough && *shape != 3 && *shape != 11 {
-            continue;
-          }
-          for tu in tuples(&menu2, 2) {
-            let progs: Vec<Vec<TOp>> = tu.iter().enumerate().map(|(t, p)| prog(*p, t)).collect();
-            items.push((Harness { fl: *fl, unify: *unify, min_seg: *min_seg, cap: *cap, shape: *shape, progs, own_arenas: false }, b2));
-          }
-        }
-        if li > 0 && !thorough {
-          continue;
-        }
-        for shape in &shapes3 {
-          if *fl == Fl::None {
-            continue;
-          }
-          for tu in tuples(&menu3, 3) {
-            let progs: Vec<Vec<TOp>> = tu.iter().enumerate().map(|(t, p)| prog(*p, t)).collect();
-            items.push((Harness { fl: *fl, unify: *unify, min_seg: *min_seg, cap: *cap, shape: *shape, progs, own_arenas: false }, b3));
+    let lists: Vec<Fl> = vec![Fl::Optimistic, Fl::Pessimistic];
+    let with_none: Vec<Fl> = if id == "C07" { lists.clone() } else { vec![Fl::Optimistic, Fl::Pessimistic, Fl::None] };
+    // (threads, bound, free lists, layouts (unify, cap, min_seg), shapes)
+    type Pass = (usize, u8, Vec<Fl>, Vec<(bool, u32, u32)>, Vec<u8>);
+    let passes: Vec<Pass> = if thorough {
+      vec![
+        (2, 4, with_none.clone(), vec![(true, 256, 8), (false, 225, 8)], vec![3, 1, 0, 7, 11]),
+        (2, 4, lists.clone(), vec![(true, 256, 0), (true, 256, 20)], vec![3, 11, 19]),
+        (2, 5, lists.clone(), vec![(true, 256, 8)], vec![3, 11]),
+        (3, 3, lists.clone(), vec![(true, 256, 8)], vec![3, 1, 11]),
+        (3, 2, lists.clone(), vec![(false, 225, 8), (true, 256, 0)], vec![3, 7, 19]),
+      ]
+    } else {
+      vec![
+        (2, 3, with_none.clone(), vec![(true, 256, 8)], vec![3, 1, 0, 7, 11]),
+        (2, 3, lists.clone(), vec![(false, 225, 8)], vec![3, 11]),
+        (3, 2, lists.clone(), vec![(true, 256, 8)], vec![3, 1, 11]),
+      ]
+    };
+    for (nt, bound, fls, layouts, shapes) in &passes {
+      let menu = if *nt == 2 { &menu2 } else { &menu3 };
+      let mut count = 0;
+      for fl in fls {
+        for (unify, cap, min_seg) in layouts {
+          for shape in shapes {
+            if *fl == Fl::None && *shape != 3 && *shape != 7 {
+              continue;
+            }
+            for tu in tuples(menu, *nt) {
+              let progs: Vec<Vec<TOp>> = tu.iter().enumerate().map(|(t, p)| prog(*p, t)).collect();
+              items.push((Harness { fl: *fl, unify: *unify, min_seg: *min_seg, cap: *cap, shape: *shape, progs, own_arenas: false }, *bound));
+              count += 1;
+            }
           }
         }
       }
+      bounds.push(json!({"kind": "alloc/release programs", "threads": nt, "preemption_bound": bound, "freelists": format!("{:?}", fls), "layouts(unify,cap,min_seg)": layouts, "shapes": shapes, "menu": format!("{:?}", menu), "harnesses": count}));
     }
-    bounds.push(json!({"kind": "alloc/release programs", "pair_bound": b2, "triple_bound": b3, "pair_menu": format!("{:?}", menu2), "triple_menu": format!("{:?}", menu3), "shapes_pairs": shapes2, "shapes_triples": shapes3, "layouts(unify,cap,min_seg)": layouts, "freelists": format!("{:?}", fls)}));
   }
   let execs = AtomicU64::new(0);
   let events = AtomicU64::new(0);
@@ -201,4 +205,30 @@ pub fn check(id: &str, tier: Tier) -> i32 {
   run.assume("sequentially consistent interleavings only; spurious compare_exchange_weak failures not injected");
   run.assume("Backoff replaced by a reporting shim; snooze treated as a voluntary yield; a thread is parked only after a loop iteration that overlapped no memory-changing access");
   run.finish()
+}
+
+/// calibration helper: schedule counts per bound for a few harnesses
+pub fn calib() -> i32 {
+  let run = Run::new("CALIB", Tier::Quick, "model_checking");
+  for (name, progs) in [
+    ("B16 || B16,D", vec![prog(P::B16, 0), prog(P::B16D, 1)]),
+    ("B16,B16 || Dp,B16", vec![prog(P::B16B16, 1), prog(P::DpB16, 0)]),
+    ("B16 || B16 || Dp", vec![prog(P::B16, 1), prog(P::B16, 2), prog(P::Dp, 0)]),
+    ("B16,D || B24 || U64", vec![prog(P::B16D, 0), prog(P::B24, 1), prog(P::U64, 2)]),
+  ] {
+    for bound in 0..=6u8 {
+      if progs.len() == 3 && bound > 4 {
+        continue;
+      }
+      let h = Harness { fl: Fl::Optimistic, unify: true, min_seg: 8, cap: 256, shape: 3, progs: progs.clone(), own_arenas: false };
+      let t0 = std::time::Instant::now();
+      let xc = ExploreCfg { bound, hb: false, drain: true, prop_of: prop_c02, max_execs: 50_000_000 };
+      let st = explore(&run, &h, &xc, "calib");
+      println!("{:24} bound {}: {:>10} schedules {:>12} events {:.2}s max_choice_points {}", name, bound, st.execs, st.events, t0.elapsed().as_secs_f64(), st.max_choices);
+      if t0.elapsed().as_secs_f64() > 60.0 {
+        break;
+      }
+    }
+  }
+  0
 }
